@@ -46,6 +46,7 @@ def single_ops(mx, ln):
 
 class C13(DiffProperty):
     pid = "C13"
+    claimed = True
     coq_dir = "C13"
     extract_vo = "C13/Extract.vo"
     mlname = "c13_model"
